@@ -74,6 +74,12 @@ def call2(C, Angle, name, args):
     return v, enc(v)
 
 
+def record(ctx, name, dev, inp):
+    """Largest deviation seen, kept apart for the inputs that lie in a listed known-finding region."""
+    known = inp.get('polecap', 90.0) <= 2e-3 or not (5e-3 < inp.get('sep', 1.0) < 179.995)
+    ctx.deviation(name + ('@known_finding_region' if known else ''), dev)
+
+
 def tie(ctx, name, args, out, klass=None, raw=False):
     """One correspondence case. The implementation receives `Angle(a)`; the model receives the degree value that
     Angle stores (identical for |a| < 360; `Angle(360.0)` stores 0.0)."""
@@ -129,7 +135,7 @@ def check_conv(ctx, pair, direction, lon, lat, par, klass, lon2=None, lat2=None)
     ctx.predicate('latitude_range', -90.0 <= v[1] <= 90.0, inp, {'fn': f, 'out': v}, klass)
     # the conversion is the rotation of its frame pair (independent matrix)
     dev = S.vsep(S.dirv(v[0], v[1]), w)
-    ctx.deviation('rotation_' + f, dev)
+    record(ctx, 'rotation_' + f, dev, inp)
     ctx.predicate('is_rotation', dev <= TOL, inp, {'fn': f, 'out': v, 'dev_deg': dev}, klass)
     # back
     v2, out2 = call2(C, Angle, g, [v[0], v[1]] + list(par))
@@ -139,7 +145,7 @@ def check_conv(ctx, pair, direction, lon, lat, par, klass, lon2=None, lat2=None)
         inp2 = dict(inp)
         inp2['polecap'] = min(inp['polecap'], 90.0 - abs(v2[1]))
         dev = S.vsep(S.dirv(v2[0], v2[1]), u)
-        ctx.deviation('inverse_' + pair, dev)
+        record(ctx, 'inverse_' + pair, dev, inp2)
         ctx.predicate('inverse', dev <= TOL, inp2, {'fwd': v, 'back': v2, 'dev_deg': dev}, klass)
     # the angle to a second direction is unchanged
     if lon2 is not None:
@@ -150,7 +156,7 @@ def check_conv(ctx, pair, direction, lon, lat, par, klass, lon2=None, lat2=None)
             w2 = S.matvec(matrix(pair, direction, par), S.dirv(lon2, lat2))
             inp3['polecap'] = min(inp['polecap'], 90.0 - abs(lat2), 90.0 - abs(q[1]), 90.0 - abs(S.lonlat(w2)[1]))
             dev = abs(S.sep_ref(lon, lat, lon2, lat2) - S.sep_ref(v[0], v[1], q[0], q[1]))
-            ctx.deviation('preserves_angle_' + pair, dev)
+            record(ctx, 'preserves_angle_' + pair, dev, inp3)
             ctx.predicate('preserves_angle', dev <= TOL, inp3, {'dev_deg': dev}, klass)
 
 
@@ -166,7 +172,7 @@ def check_sep(ctx, a1, d1, a2, d2, klass):
     ctx.predicate('no_exception_sep', v is not None and w is not None, inp, [out, outw], klass)
     if v is not None and w is not None:
         dev = abs(v[0] - truth)
-        ctx.deviation('angular_separation', dev)
+        record(ctx, 'angular_separation', dev, inp)
         ctx.predicate('separation_value', dev <= TOL, inp, {'impl': v[0], 'dot_cross': truth, 'dev_deg': dev}, klass)
         ctx.predicate('separation_symmetric', abs(v[0] - w[0]) <= TOL, inp, {'s12': v[0], 's21': w[0]}, klass)
         ctx.predicate('separation_range', 0.0 <= v[0] <= 180.0, inp, v[0], klass)
@@ -183,7 +189,7 @@ def check_sep(ctx, a1, d1, a2, d2, klass):
     if abs(d1) < 90.0 and abs(d2) < 90.0:
         ref = S.pa_ref(a1, d1, a2, d2)
         dev = S.angdiff(p[0], ref)
-        ctx.deviation('relative_position_angle', dev)
+        record(ctx, 'relative_position_angle', dev, inp)
         ctx.predicate('position_angle_value', dev <= TOL, inp, {'impl': p[0], 'cross_dot': ref, 'dev_deg': dev}, klass)
         # antisymmetry, in the two senses that are true: exchanging the right ascensions negates the
         # angle exactly; exchanging the bodies gives an angle of the opposite sign.
